@@ -19,7 +19,7 @@ META = dict(
     engines=["bfs"],
     technique="explicit-state BFS over nestings of the real config.set contexts, reference model replayed in lock-step",
     text="Breadth-first search over all nestings (depth <= 3 quick / 4 thorough) and sequences of config.set contexts drawn "
-         "from a 14-entry key alphabet (existing/new, flat/nested, aliases, dict<->scalar replacement, multi-key, kwargs, "
+         "from a 16-entry key alphabet (existing/new, flat/nested, aliases, dict<->scalar and dict<->None replacement, multi-key, kwargs, "
          "constructor failures), each left normally or by exception; every transition is executed on the real global config, "
          "restoration is checked against the entry snapshot at every exit and a reference model is replayed in lock-step.",
     note="Bound: nesting depth and key alphabet as stated; LIFO exit order only (guaranteed by the with statement); "
@@ -39,6 +39,8 @@ KEYS = [
     [{"fftw.threads": 7, "zz.q": 1}, {}],
     [{"zz.a": 3}, {}],
     [{"precision": "float16", "zz.a": 4}, {}],
+    [{"zz": None}, {}],  # a section that exists and holds None (an empty yaml section / an option switched off)
+    [{"fftw": None}, {}],
     [None, {"fftw__threads": 5}],
     [{"precision": "float64"}, {"precision": "float16", "dask__lazy": False}],
 ]
